@@ -17,6 +17,8 @@ package interrupt
 import (
 	"context"
 	"os/signal"
+
+	"github.com/bufbuild/buf/private/pkg/verifhook"
 )
 
 // Handle returns a copy of the parent [context.Context] that is marked done
@@ -44,6 +46,10 @@ import (
 //	  ...
 //	}
 func Handle(ctx context.Context) context.Context {
+	if verifhook.Enabled {
+		// A simulated process is not interrupted by signals of the operating system.
+		return ctx
+	}
 	ctx, cancel := signal.NotifyContext(ctx, Signals...)
 	go func() {
 		<-ctx.Done()
